@@ -1,6 +1,7 @@
 package parser
 
 import (
+	"fmt"
 	"github.com/aml-org/amf-custom-validator/internal/parser/profile"
 	y "github.com/aml-org/amf-custom-validator/internal/parser/yaml"
 )
@@ -10,6 +11,9 @@ func Parse(profileText string) (*profile.Profile, error) {
 	node, err := y.NewYaml([]byte(profileText))
 	if err != nil {
 		return nil, err
+	}
+	if found, line, column := node.FindAlias(); found {
+		return nil, fmt.Errorf("YAML aliases are not supported in profiles, found one at [%d,%d]", line, column)
 	}
 
 	prof, err := profile.Parse(node)
